@@ -674,7 +674,7 @@ func c12DiffCases(c *Ctx, run *c12Runner) error {
 		}
 	}
 	// lengths up to 64 (a few up to 160) over small alphabets / periodic / derived: in-Coq suffix array
-	n := c12N(c, 400, 6000, 3000)
+	n := c12N(c, 400, 8000, 3000)
 	for i := 0; i < n; i++ {
 		cr := r.Fork()
 		maxLen := 64
@@ -689,7 +689,7 @@ func c12DiffCases(c *Ctx, run *c12Runner) error {
 		}
 	}
 	// up to 4 KiB: tabulated search
-	n = c12N(c, 32, 450, 150)
+	n = c12N(c, 32, 600, 150)
 	for i := 0; i < n; i++ {
 		cr := r.Fork()
 		maxLen := []int{300, 1024, 4096}[cr.Intn(3)]
@@ -728,7 +728,7 @@ func c12DiffCases(c *Ctx, run *c12Runner) error {
 	}
 	// MiB-sized: several scan blocks of 128 KiB, oracle only
 	if c.Tier != "quick" {
-		n = c12N(c, 0, 36, 4)
+		n = c12N(c, 0, 48, 4)
 		for i := 0; i < n; i++ {
 			cr := r.Fork()
 			sz := []int{128*1024 - 1, 128 * 1024, 128*1024 + 1, 300 * 1024, 1 << 20, 3<<20 + 12345}[cr.Intn(6)]
@@ -791,7 +791,7 @@ func c12ClassHead(s string) string {
 
 func c12PatchCases(c *Ctx, run *c12Runner) error {
 	r := c.Rng.Fork()
-	n := c12N(c, 250, 4000, 2000)
+	n := c12N(c, 250, 5000, 2000)
 	for i := 0; i < n; i++ {
 		cr := r.Fork()
 		var old []byte
